@@ -97,7 +97,7 @@ def transform(case, r, kind):
     else:
       panel['dates'] = [pd.Timestamp(d) for d in days]
   if 'scale' in kinds:
-    k = r.choice([r.randrange(-3, 13), r.randrange(-3, 13), r.randrange(-30, -10), r.randrange(16, 32), r.randrange(-75, -50)])
+    k = r.choice([r.randrange(-3, 13), r.randrange(14, 32), r.randrange(16, 32), r.randrange(-30, -10), r.randrange(-75, -50)])
     c = 2.0 ** k
     panel['values'] = panel['values'] * c
     if panel.get('dups'):
